@@ -17,7 +17,7 @@ func run(t *testing.T, part string, n int, pick []int) {
 		"result-sequence oracle: set equality, no object more often than it has matching keys, ascending (index key, primary key) assignment exists")
 	r.Require("query_checks", "commits")
 	r.ParallelCases(n, vkit.Workers(), func(i int) {
-		dbsim.RunPlain(r, i, dbsim.Opts{Tables: 2, Txns: 14, MaxOps: 8, ProbesPerIndex: 6, AnyTable: true, AbortPct: 15, SchemaPick: pick,
+		dbsim.RunPlain(r, i, dbsim.Opts{Tables: 2, Txns: 14, MaxOps: 8, ProbesPerIndex: 6, AnyTable: true, AbortPct: 15, SchemaPick: pick, Remote: i%4 == 0,
 			Report: map[string]bool{"query": true, "abort": true}},
 			func(s *dbsim.Sim) bool { return s.QueryChecks() >= 20 && s.Commits() > 0 })
 	})
